@@ -16,7 +16,7 @@ broadcast use {crate::bitlemmas::bits64, vstd::arithmetic::mul::group_mul_basics
 /// the protocol's share of a fee: floor(fee * rate / 10_000)
 pub open spec fn proto_cut(fee: int, rate: int) -> int { (fee * rate) / 10_000 }
 
-//@ fn manager/swap_manager.rs calculate_protocol_fee -> r
+//@ fn manager/swap_manager.rs calculate_protocol_fee -> r pub
     requires protocol_fee_rate <= 10_000,
     ensures r as int == proto_cut(global_fee as int, protocol_fee_rate as int), r <= global_fee,
 //@ inject at /^\{/
@@ -33,7 +33,7 @@ pub proof fn lemma_cut_le(fee: int, rate: int)
 }
 
 /// C06: fee = protocol share (rounded down, added to the running protocol fee) + LP share (accrued to in-range liquidity)
-//@ fn manager/swap_manager.rs calculate_fees -> r
+//@ fn manager/swap_manager.rs calculate_fees -> r pub
     requires protocol_fee_rate <= 10_000,
     ensures ({
         let cut = if protocol_fee_rate > 0 { proto_cut(fee_amount as int, protocol_fee_rate as int) } else { 0 };
@@ -47,7 +47,7 @@ pub proof fn lemma_cut_le(fee: int, rate: int)
 //@ end
 
 //@ assume reachable-state: a stored tick never has liquidity_net == i128::MIN (negating it would wrap in release builds); it would need > 2^127 liquidity bounded at one tick, which the u64 token-amount checks of increase_liquidity exclude
-//@ fn manager/swap_manager.rs calculate_update -> r
+//@ fn manager/swap_manager.rs calculate_update -> r pub
     requires tick.liquidity_net != i128::MIN,
     ensures
         r matches Ok(p) ==> cross_spec(*tick, fee_growth_global_a, fee_growth_global_b, *reward_infos, p.0)
